@@ -45,3 +45,97 @@ Proof.
   assert (H : forallb (fun f => smem f loader_reset_fields) loader_fields = true) by (vm_compute; reflexivity).
   intros f Hf. rewrite forallb_forall in H. auto.
 Qed.
+
+(* --- ownership --- *)
+From Coq Require Import Arith Lia.
+Definition OInv (s : ostate) : Prop := NoDup (opool s ++ oheld s) /\ forall i, In i (opool s ++ oheld s) -> i < onext s.
+
+Lemma existsb_In i l : existsb (Nat.eqb i) l = true <-> In i l.
+Proof. rewrite existsb_exists. split; [intros (x & Hx & He); apply Nat.eqb_eq in He; subst; exact Hx|intros H; exists i; split; [exact H|apply Nat.eqb_refl]]. Qed.
+Lemma remove1_In i j l : In j (remove1 i l) -> In j l.
+Proof. induction l as [|k r IH]; cbn; [auto|]. destruct (Nat.eqb i k); [auto|]. intros [H|H]; auto. Qed.
+Lemma remove1_NoDup i l : NoDup l -> NoDup (remove1 i l) /\ ~ In i (remove1 i l).
+Proof.
+  induction l as [|k r IH]; cbn; intros H; [split; [constructor|auto]|].
+  inversion H as [|? ? Hk Hr]; subst. destruct (Nat.eqb_spec i k) as [->|Hne]; [split; assumption|].
+  destruct (IH Hr) as [H1 H2]. split.
+  - constructor; [intros Hin; apply Hk; eapply remove1_In; exact Hin|exact H1].
+  - intros [Heq|Hin]; [congruence|auto].
+Qed.
+Lemma NoDup_app_l {A} (l1 l2 : list A) : NoDup (l1 ++ l2) -> NoDup l1.
+Proof. induction l1 as [|a l IH]; cbn; intros H; [constructor|]. inversion H; subst. constructor; [rewrite in_app_iff in *; tauto|auto]. Qed.
+Lemma NoDup_app_r {A} (l1 l2 : list A) : NoDup (l1 ++ l2) -> NoDup l2.
+Proof. induction l1 as [|a l IH]; cbn; intros H; [exact H|]. inversion H; auto. Qed.
+Lemma NoDup_app_disj {A} (l1 l2 : list A) x : NoDup (l1 ++ l2) -> In x l1 -> In x l2 -> False.
+Proof.
+  induction l1 as [|a l IH]; cbn; intros H H1 H2; [auto|]. inversion H as [|? ? Ha Hl]; subst.
+  destruct H1 as [->|H1]; [apply Ha; rewrite in_app_iff; auto|eauto].
+Qed.
+Lemma NoDup_app_build {A} (l1 l2 : list A) : NoDup l1 -> NoDup l2 -> (forall x, In x l1 -> In x l2 -> False) -> NoDup (l1 ++ l2).
+Proof.
+  induction l1 as [|a l IH]; cbn; intros H1 H2 Hd; [exact H2|]. inversion H1; subst.
+  constructor; [rewrite in_app_iff; intros [H|H]; [auto|eapply Hd; [left; reflexivity|exact H]]|apply IH; auto].
+  intros x Hx; apply Hd; right; exact Hx.
+Qed.
+
+(* one step keeps the invariant, provided a Put gives back a held buffer *)
+Lemma ostep_inv s e : OInv s ->
+  (match e with EPut i => existsb (Nat.eqb i) (oheld s) | EGet _ => true end) = true -> OInv (fst (ostep s e)).
+Proof.
+  intros [Hnd Hlt] Hd. pose proof (NoDup_app_l _ _ Hnd) as Hp. pose proof (NoDup_app_r _ _ Hnd) as Hh.
+  destruct e as [c|i]; cbn [ostep].
+  - destruct (match c with Some i => _ | None => None end) as [i|] eqn:Ec; cbn [fst opool oheld onext].
+    + assert (Hi : In i (opool s)).
+      { destruct c as [j|]; [|discriminate]. destruct (existsb (Nat.eqb j) (opool s)) eqn:E; [|discriminate]. inversion Ec; subst. apply existsb_In; exact E. }
+      destruct (remove1_NoDup i _ Hp) as [Hr1 Hr2]. split.
+      * apply NoDup_app_build; [exact Hr1| |].
+        -- constructor; [intros Hin; exact (NoDup_app_disj _ _ i Hnd Hi Hin)|exact Hh].
+        -- intros x Hx [<-|Hx2]; [auto|]. apply (NoDup_app_disj _ _ x Hnd); [eapply remove1_In; exact Hx|exact Hx2].
+      * intros x Hx. apply Hlt. rewrite in_app_iff in *. destruct Hx as [Hx|[<-|Hx]]; [left; eapply remove1_In; exact Hx|left; exact Hi|right; exact Hx].
+    + split.
+      * apply NoDup_app_build; [exact Hp| |].
+        -- constructor; [intros Hin; assert (onext s < onext s) by (apply Hlt; rewrite in_app_iff; auto); lia|exact Hh].
+        -- intros x Hx [<-|Hx2]; [assert (onext s < onext s) by (apply Hlt; rewrite in_app_iff; auto); lia|exact (NoDup_app_disj _ _ x Hnd Hx Hx2)].
+      * cbn [opool oheld onext]. intros x Hx. rewrite in_app_iff in Hx. destruct Hx as [Hx|[<-|Hx]]; [| lia |]; (assert (x < onext s) by (apply Hlt; rewrite in_app_iff; auto); lia).
+  - cbn [fst opool oheld onext]. apply existsb_In in Hd. destruct (remove1_NoDup i _ Hh) as [Hr1 Hr2]. split.
+    + cbn [app]. constructor.
+      * rewrite in_app_iff. intros [Hin|Hin]; [exact (NoDup_app_disj _ _ i Hnd Hin Hd)|auto].
+      * apply NoDup_app_build; [exact Hp|exact Hr1|]. intros x Hx Hx2. apply (NoDup_app_disj _ _ x Hnd Hx). eapply remove1_In; exact Hx2.
+    + intros x Hx. apply Hlt. cbn [app] in Hx. apply in_or_app. destruct Hx as [<-|Hx]; [right; exact Hd|]. apply in_app_or in Hx. destruct Hx as [Hx|Hx]; [left; exact Hx|right; eapply remove1_In; exact Hx].
+Qed.
+
+Lemma o0_inv : OInv o0.
+Proof. split; [constructor|intros i []]. Qed.
+
+Lemma orun_inv t : forall s, OInv s -> disciplined s t = true -> OInv (orun s t).
+Proof.
+  induction t as [|e r IH]; intros s Hs Hd; cbn [orun]; [exact Hs|]. cbn [disciplined] in Hd. apply andb_true_iff in Hd. destruct Hd as [H1 H2].
+  apply IH; [apply ostep_inv; assumption|exact H2].
+Qed.
+
+(* exclusive ownership: under the discipline no Get ever hands out a buffer somebody still holds *)
+Theorem get_exclusive t c :
+  disciplined o0 t = true ->
+  forall i, snd (ostep (orun o0 t) (EGet c)) = Some i -> ~ In i (oheld (orun o0 t)).
+Proof.
+  intros Hd i Hget. pose proof (orun_inv t o0 o0_inv Hd) as [Hnd Hlt]. set (s := orun o0 t) in *. cbn [ostep] in Hget.
+  destruct (match c with Some i => _ | None => None end) as [j|] eqn:Ec; cbn [snd] in Hget; inversion Hget; subst.
+  - destruct c as [k|]; [|discriminate]. destruct (existsb (Nat.eqb k) (opool s)) eqn:E; [|discriminate]. inversion Ec; subst.
+    apply existsb_In in E. intros Hin. exact (NoDup_app_disj _ _ i Hnd E Hin).
+  - intros Hin. assert (onext s < onext s) by (apply Hlt; rewrite in_app_iff; auto). lia.
+Qed.
+
+(* ... and one extra Put is enough to break it: the same buffer is handed to two holders *)
+Theorem double_put_shares :
+  exists t c i, snd (ostep (orun o0 t) (EGet c)) = Some i /\ In i (oheld (orun o0 t)).
+Proof. exists [EGet None; EPut 0; EPut 0; EGet (Some 0)], (Some 0), 0. cbn. auto. Qed.
+
+(* every site of the repository: one Get, one Put, and the Put deferred - so each invocation gives back exactly
+   the buffer it holds, exactly once, when it is done with it (the discipline above) *)
+Definition balance_ok (b : string * nat * nat) : bool := Nat.eqb (snd (fst b)) 1 && Nat.eqb (snd b) 1.
+Lemma sites_balanced : forall b, In b pool_balance -> balance_ok b = true.
+Proof. assert (H : forallb balance_ok pool_balance = true) by (vm_compute; reflexivity). intros b Hb. rewrite forallb_forall in H. auto. Qed.
+Lemma sites_same : map (fun s => fst (fst (fst s))) pool_sites = map (fun b => fst (fst b)) pool_balance.
+Proof. vm_compute. reflexivity. Qed.
+Lemma no_pool_calls_elsewhere : pool_calls_elsewhere = ["internal/sync/pool.go|Get|Get"; "internal/sync/pool.go|Put|Put"]%string.
+Proof. vm_compute. reflexivity. Qed.
